@@ -32,7 +32,10 @@ func ruleHasEOFEdges(c *Ctx, r *Rep, tier string) {
 	if lb := bc.lowerBound(readAt.Call.Args[1], readAt.Block(), 0); lb < 0 {
 		why = "ReadAt is asked for size − len(magicBlock) without the size having been compared with the marker's length: for a stream shorter than 28 bytes – the empty output of a writer that was never closed, a cut at offset 0 – the offset is negative and HasEOF returns the reader's error instead of false"
 	}
-	r.Check(why == "", rule, "bgzf.HasEOF#short-stream", c.Pos(readAt.Pos()), "the offset is shown non-negative", why)
+	if lb := bc.lowerBound(readAt.Call.Args[1], readAt.Block(), 0); lb > 0 {
+		why = fmt.Sprintf("the offset handed to ReadAt is at least %d on every path: a stream that is exactly the marker (what a Writer that was closed without data has written) never reaches the comparison and is reported to have none", lb)
+	}
+	r.Check(why == "", rule, "bgzf.HasEOF#short-stream", c.Pos(readAt.Pos()), "the offset is shown non-negative, and offset 0 (a stream that is the marker alone) is not excluded", why)
 
 	// (2) on the error edge after ReadAt, io.EOF is looked at before giving up
 	why = ""
